@@ -3,6 +3,6 @@ CONSTANTS
   Family = "e2e"
   Width = "thorough"
   MaxForge = 3
-  ScenarioSet = "e2e_quick"
+  ScenarioSet = "e2e_three"
 INVARIANTS TypeOK MakeJoinExact MakeLeaveExact TemplateShape SendJoinExact InviteExact InviteV3Exact ReturnsCountersigned PerformJoinExact NoJoinWithoutBothHandlers BannedNeverJoins RetrySucceedsWhereAFreshJoinWould UnforgedPublicJoinSucceeds UnforgedRestrictedJoinSucceeds TamperedNeverAccepted Emit
 CHECK_DEADLOCK FALSE
